@@ -15,7 +15,7 @@ def mk_tree(c):
     P, pos, rad = c["P"], c["pos"], c["rad"]
     n = len(P)
     ty = [c["rtype"]] + [3] * (n - 1)
-    return Tree(n, id=np.arange(n, dtype=np.int32), pid=np.array(P, dtype=np.int32), type=np.array(ty, dtype=np.int32),
+    return Tree(n, source=lib.SRC, id=np.arange(n, dtype=np.int32), pid=np.array(P, dtype=np.int32), type=np.array(ty, dtype=np.int32),
                 x=np.array([p[0] for p in pos], dtype=np.float32), y=np.array([p[1] for p in pos], dtype=np.float32),
                 z=np.array([p[2] for p in pos], dtype=np.float32), r=np.array(rad, dtype=np.float32))
 
